@@ -16,8 +16,11 @@ def run(ctx):
     from suites import meshsuite
     run_suites(ctx, ["mesh"], runner=meshsuite.run_suite)
     run_suites(ctx, SUITES[1:], relevant=REL)
+    from suites import bcsuite, solvesuite
+    run_suites(ctx, ["bc_ghost", "bc_rows"], runner=bcsuite.run_suite)
+    run_suites(ctx, ["solve", "explicit"], runner=solvesuite.run_suite)
     try:
-        n = probes.probe_c01(ctx, pf)
+        n = probes.probe_c01(ctx, pf) + probes.probe_c01_steps(ctx, pf)
         ctx.add_cases("impl_probe", n, [f"c01probe{i}" for i in range(min(n, 50))])
     except Exception:
         ctx.broke("correspondence", "impl_probe/harness", traceback.format_exc()[-1200:])
